@@ -278,12 +278,18 @@ fn stmt(b: &mut Builder, depth: u32, protected: &mut Vec<i64>) {
         }
         4 => {
             let c = b.cell_not(protected);
-            match b.rng.below(4) {
+            match b.rng.below(5) {
                 0 => {
                     let v = b.rng.range(1, 5);
                     b.set(c, v);
                 }
-                1 => b.input(c),
+                4 if b.wrap_ok => {
+                    // a large constant trip count reached through wrap-around (cheap at 8 bit only)
+                    let v = b.rng.range(1, 127);
+                    b.clear(c);
+                    b.add(c, -v);
+                }
+                1 | 4 => b.input(c),
                 2 => {
                     let v = b.rng.range(0, 3);
                     b.add(c, v);
